@@ -156,6 +156,16 @@ Parse(toks) ==
     THEN Cfg(toks[1], toks[2], toks[3], ArchParse(SubSeq(toks, 4, Len(toks))))
   ELSE Cfg("?", 0, 0, "?")
 
+\* the aliases of Platform.parse (tested by equality before everything else) and the full name resolution
+Aliases == { <<"linux">>, <<"windows">>, <<"macos">>, <<"alpine">>, <<"macos", "arm64">>, <<"macos", "x86", "64">> }
+AliasTarget(t) ==
+  CASE t = <<"linux">> -> Cfg("manylinux", 2, 17, "x86_64")
+    [] t = <<"windows">> -> Cfg("windows", 0, 0, "x86_64")
+    [] t = <<"alpine">> -> Cfg("musllinux", 1, 2, "x86_64")
+    [] t = <<"macos", "x86", "64">> -> Cfg("macos", 14, 0, "x86_64")
+    [] OTHER -> Cfg("macos", 14, 0, "aarch64")                       \* "macos", "macos_arm64"
+ParseName(t) == IF Len(t) <= 3 /\ t \in Aliases THEN AliasTarget(t) ELSE Parse(t)
+
 \* Platform.markers(): the PEP 508 environment of a target platform (beyond the listed properties;
 \* transcription of the os_name / sys_platform / platform_machine / platform_system properties)
 Markers(c) ==
